@@ -1,6 +1,10 @@
 import GoawkModel.C09
 import GoawkModel.C09Spec
 import Proofs.C09
+import Proofs.C09Conv
+import Proofs.C09Compose
+import Proofs.C09Sharp
+import GoawkModel.C09Digits
 import Proofs.C09Scan
 /-! Property theorems for C09 (see /verif/DESIGN.md). Only property theorems and non-vacuity examples live here.
 
@@ -70,67 +74,20 @@ def intVerb (verb : UInt8) : Option (Bool × Bool × Bool × Bool × Nat) :=   -
   else if verb = 88 then some (false, false, true, true, 16)
   else none
 
-/-- the recorded classes on which Go's integer formatting is not C's (F15, G09-1) -/
-def IntExcluded (cs : CSpec) (neg : Bool) (u : Nat) : Prop :=
-  (u = 0 ∧ cs.prec = some 0 ∧ (neg = true ∨ cs.fl.plus = true ∨ cs.fl.space = true)) ∨
-  (u = 0 ∧ cs.fl.sharp = true ∧ (cs.verb = 120 ∨ cs.verb = 88) ∧ cs.prec ≠ some 0) ∨
-  (u = 0 ∧ cs.fl.sharp = true ∧ cs.verb = 111 ∧ cs.prec = some 0) ∨
-  (cs.fl.sharp = true ∧ (cs.verb = 120 ∨ cs.verb = 88) ∧ cs.fl.zero = true ∧ cs.fl.minus = false ∧ cs.prec = none ∧
-    ∃ w, cs.width = some w ∧ w > (natDigits 16 (cs.verb = 88) u).length)
-
 /-- `sprintf_is_c` for `d i`: in the C domain and outside F15, what `fmt.Sprintf("%…d", int64)` produces is C's `%…d`/`%…i` of
 the same integer, for every flag set, width, precision and value -/
 theorem sprintf_is_c_partial_signed (dg : DigitGen) (cs : CSpec) (v : Int)
     (hverb : cs.verb = 100 ∨ cs.verb = 105) (hdom : InCDomain cs)
     (hx : ¬ IntExcluded cs (decide (v < 0)) v.natAbs) :
-    goFormat dg ⟨cs.fl, cs.width, cs.prec, 100⟩ (.i64 v) = cFormat dg cs (.int v) := by
-  obtain ⟨fl, wid, prec, verb⟩ := cs
-  simp only at hverb
-  have hsharp : fl.sharp = false := by
-    rcases hverb with h | h <;> subst h <;> cases hs : fl.sharp <;> simp_all [InCDomain, inCDomain]
-  have hcore := cFmtInteger_core fl wid prec (decide (v < 0)) v.natAbs
-  have hgo := goInt_eq_cIntCore fl wid prec true false false false 10 (by omega) (decide (v < 0)) v.natAbs
-    (by simp) (by simp) (by simp [hsharp]) (by simp) (by simp)
-    (fun h => hx (Or.inl h)) (by simp) (by simp) (by simp)
-  rcases hverb with h | h <;> subst h
-  · simp [goFormat, cFormat, hgo, hcore.1]
-  · simp [goFormat, cFormat, hgo, hcore.2.1]
+    goFormat dg ⟨cs.fl, cs.width, cs.prec, 100⟩ (.i64 v) = cFormat dg cs (.int v) :=
+  conv_signed dg cs v hverb hdom hx
 
 /-- `sprintf_is_c` for `o u x X` (the argument is `uint64(int64(x))`): outside F15 and G09-1 -/
 theorem sprintf_is_c_partial_unsigned (dg : DigitGen) (cs : CSpec) (u : Nat) (g : UInt8)
     (hverb : (cs.verb = 117 ∧ g = 100) ∨ (cs.verb = 111 ∧ g = 111) ∨ (cs.verb = 120 ∧ g = 120) ∨ (cs.verb = 88 ∧ g = 88))
     (hdom : InCDomain cs) (hx : ¬ IntExcluded cs false u) :
-    goFormat dg ⟨cs.fl, cs.width, cs.prec, g⟩ (.u64 u) = cFormat dg cs (.uint u) := by
-  obtain ⟨fl, wid, prec, verb⟩ := cs
-  simp only at hverb
-  have hcore := cFmtInteger_core fl wid prec false u
-  have hps : fl.plus = false ∧ fl.space = false := by
-    rcases hverb with ⟨h, _⟩ | ⟨h, _⟩ | ⟨h, _⟩ | ⟨h, _⟩ <;> subst h <;>
-      cases hp : fl.plus <;> cases hs : fl.space <;> simp_all [InCDomain, inCDomain]
-  rcases hverb with ⟨h, hg⟩ | ⟨h, hg⟩ | ⟨h, hg⟩ | ⟨h, hg⟩ <;> subst h <;> subst hg
-  · -- u
-    have hsharp : fl.sharp = false := by cases hs : fl.sharp <;> simp_all [InCDomain, inCDomain]
-    have hgo := goInt_eq_cIntCore fl wid prec false false false false 10 (by omega) false u
-      (by simp) (by simp) (by simp [hsharp]) (by simp [hps.1, hps.2]) (by simp)
-      (fun h => hx (Or.inl h)) (by simp) (by simp) (by simp)
-    simp [goFormat, cFormat, hgo, hcore.2.2.1]
-  · -- o
-    have hgo := goInt_eq_cIntCore fl wid prec false true false false 8 (by omega) false u
-      (by simp) (by simp) (by simp) (by simp [hps.1, hps.2]) (by simp)
-      (fun h => hx (Or.inl h)) (by simp) (fun h => hx (Or.inr (Or.inr (Or.inl ⟨h.1, h.2.1, rfl, h.2.2.2⟩)))) (by simp)
-    simp [goFormat, cFormat, hgo, hcore.2.2.2.1]
-  · -- x
-    have hgo := goInt_eq_cIntCore fl wid prec false false true false 16 (by omega) false u
-      (by simp) (by simp) (by simp) (by simp [hps.1, hps.2]) (by simp)
-      (fun h => hx (Or.inl h)) (fun h => hx (Or.inr (Or.inl ⟨h.1, h.2.1, Or.inl rfl, h.2.2.2⟩))) (by simp)
-      (fun h => hx (Or.inr (Or.inr (Or.inr ⟨h.1, Or.inl rfl, h.2.2.1, h.2.2.2.1, h.2.2.2.2.1, by simpa using h.2.2.2.2.2⟩))))
-    simp [goFormat, cFormat, hgo, hcore.2.2.2.2.1]
-  · -- X
-    have hgo := goInt_eq_cIntCore fl wid prec false false true true 16 (by omega) false u
-      (by simp) (by simp) (by simp) (by simp [hps.1, hps.2]) (by simp)
-      (fun h => hx (Or.inl h)) (fun h => hx (Or.inr (Or.inl ⟨h.1, h.2.1, Or.inr rfl, h.2.2.2⟩))) (by simp)
-      (fun h => hx (Or.inr (Or.inr (Or.inr ⟨h.1, Or.inr rfl, h.2.2.1, h.2.2.2.1, h.2.2.2.2.1, by simpa using h.2.2.2.2.2⟩))))
-    simp [goFormat, cFormat, hgo, hcore.2.2.2.2.2]
+    goFormat dg ⟨cs.fl, cs.width, cs.prec, g⟩ (.u64 u) = cFormat dg cs (.uint u) :=
+  conv_unsigned dg cs u g hverb hdom hx
 
 example : InCDomain ⟨{ plus := true, zero := true }, some 8, none, 100⟩ ∧ ¬ IntExcluded ⟨{ plus := true, zero := true }, some 8, none, 100⟩ false 42 := by
   refine ⟨by decide, ?_⟩; simp [IntExcluded]
@@ -143,23 +100,15 @@ example : InCDomain ⟨{ sharp := true }, some 6, some 3, 111⟩ ∧ ¬ IntExclu
 /-- `%s` (and its width/precision/`-`) is C's for ASCII text (C counts bytes, Go counts runes) -/
 theorem sprintf_is_c_partial_str (dg : DigitGen) (cs : CSpec) (s : Bytes)
     (hverb : cs.verb = 115) (hdom : InCDomain cs) (hascii : AllAscii s) :
-    goFormat dg ⟨cs.fl, cs.width, cs.prec, 115⟩ (.str s) = cFormat dg cs (.str s) := by
-  obtain ⟨fl, wid, prec, verb⟩ := cs
-  simp only at hverb; subst hverb
-  have hz : fl.zero = false := by cases hz : fl.zero <;> simp_all [InCDomain, inCDomain]
-  simp [goFormat, cFormat, goFmtS_is_c fl wid prec s hascii hz]
+    goFormat dg ⟨cs.fl, cs.width, cs.prec, 115⟩ (.str s) = cFormat dg cs (.str s) :=
+  conv_str dg cs s hverb hdom hascii
 
 /-- `%c` (rewritten to `%s` of the character's bytes): the character padded to the width; a multi-byte character only
 without width, or when Go counts it as one rune -/
 theorem sprintf_is_c_partial_chr (dg : DigitGen) (cs : CSpec) (c : Bytes)
     (hverb : cs.verb = 99) (hdom : InCDomain cs) (hone : runeCount c = 1 ∨ cs.width = none) :
-    goFormat dg ⟨cs.fl, cs.width, cs.prec, 115⟩ (.bytes c) = cFormat dg cs (.chr c) := by
-  obtain ⟨fl, wid, prec, verb⟩ := cs
-  simp only at hverb hone; subst hverb
-  have hz : fl.zero = false := by cases hz : fl.zero <;> simp_all [InCDomain, inCDomain]
-  have hp : prec = none := by cases prec <;> simp_all [InCDomain, inCDomain]
-  subst hp
-  simp [goFormat, cFormat, goFmtS_chr_is_c fl wid c hz hone]
+    goFormat dg ⟨cs.fl, cs.width, cs.prec, 115⟩ (.bytes c) = cFormat dg cs (.chr c) :=
+  conv_chr dg cs c hverb hdom hone
 
 /-- the `%c` argument of a number in byte mode is one byte: the character with that code modulo 256 -/
 theorem chr_of_number_is_one_byte (a : Arg) (h : a.isStr = false) :
@@ -175,25 +124,13 @@ example : goFormat dg0 ⟨{ minus := true }, some 3, none, 115⟩ (.bytes [65]) 
 
 /-! ### `e E f g G`, finite values -/
 
-/-- Go's `#` post-processing of `strconv`'s text yields the `#` form C prescribes (an assumption on the digit generator, checked
-by correspondence for the exact generator; not proved) -/
-def SharpCoherent (dg : DigitGen) : Prop :=
-  ∀ verb prec m e, goSharpFloat verb prec (dg.gen verb false prec m e) = dg.gen verb true prec m e
-
-def AsciiDigits (dg : DigitGen) : Prop := ∀ verb sharp prec m e, AllAscii (dg.gen verb sharp prec m e)
-
 /-- sign, `+`/space, `0` and `-` padding and width of the floating conversions are C's for every finite value; the precision is
 the explicit one, else 6 (GoAWK inserts `.6` for `g G`, `fmt` defaults `e E f` to 6) -/
 theorem sprintf_is_c_partial_float (dg : DigitGen) (cs : CSpec) (neg : Bool) (m : Nat) (e : Int)
     (hverb : cs.verb = 101 ∨ cs.verb = 69 ∨ cs.verb = 102 ∨ cs.verb = 103 ∨ cs.verb = 71)
     (hascii : AsciiDigits dg) (hsharp : cs.fl.sharp = true → SharpCoherent dg) :
-    goFormat dg ⟨cs.fl, cs.width, some (cs.prec.getD 6), cs.verb⟩ (.f64 (.fin neg m e)) = cFormat dg cs (.dbl (.fin neg m e)) := by
-  obtain ⟨fl, wid, prec, verb⟩ := cs
-  simp only at hverb hsharp
-  have key := goFmtFloat_is_c dg fl wid (prec.getD 6) verb neg m e (hascii _ _ _ _ _) (fun h => hsharp h _ _ _ _)
-  have hc : cFmtFloat dg ⟨fl, wid, some (prec.getD 6), verb⟩ (.fin neg m e) = cFmtFloat dg ⟨fl, wid, prec, verb⟩ (.fin neg m e) := by
-    simp [cFmtFloat]
-  rcases hverb with h | h | h | h | h <;> subst h <;> simp [goFormat, cFormat, key, hc]
+    goFormat dg ⟨cs.fl, cs.width, some (cs.prec.getD 6), cs.verb⟩ (.f64 (.fin neg m e)) = cFormat dg cs (.dbl (.fin neg m e)) :=
+  conv_float dg cs neg m e hverb hascii hsharp
 
 example : AsciiDigits dg0 := by intro _ _ _ _ _ x hx; simp [dg0] at hx; rw [hx]; decide
 
@@ -287,7 +224,7 @@ theorem print_default_ofmt (dg : DigitGen) (x : F64) :
     goPrintf dg (addPrecG ([37, 46, 54, 103] /- "%.6g" -/)) [.f64 x] = .ok (goFmtFloat dg {} none 6 103 x) := by
   have h : addPrecG ([37, 46, 54, 103] /- "%.6g" -/) = [37, 46, 54, 103] /- "%.6g" -/ := by decide
   rw [h]
-  simp [goPrintf, goPrintfAux, goFormat, isGoFlag, isDigit, numVal, litTooLarge, goFlags]
+  simp [goPrintf, goPrintfAux, goParseWidth, goParsePrec, Res.prepend, goFormat, isGoFlag, isDigit, numVal, litTooLarge, goFlags]
 
 example : (-1 : Int) < 0 ∧ truncMag 3 (-1) * 2 ^ (1 : Nat) ≠ 3 := by decide
 
@@ -315,5 +252,127 @@ theorem tostring_uses_convfmt (dg : DigitGen) (convfmt : Bytes) (v : Val) :
 /-- OFMT `%.2f`, CONVFMT irrelevant: 2.5 (= 5·2⁻¹) and the field text `x` in CSV mode give `2.50,x` (digit text from the generator) -/
 example : printArgs ⟨fun _ _ _ _ _ => [50, 46, 53, 48]⟩ .csv [37, 46, 50, 102] [32] [10] [.num (.fin false 5 (-1)), .str [120]]
     = .ok [50, 46, 53, 48, 44, 120, 10] := by decide
+
+/-! ### whole format strings: the scanners composed with the per-conversion theorems -/
+
+/-- **Composed statement.** A format given as segments — literal text without `%`, `%%`, and conversion specifications
+(`SegOK`: flags from `-+ #0`, width and precision literal or `*`, verb among `d i o u x X c s e E f g G`) — is rendered to text
+and run through the whole pipeline (`parseFmtTypes` incl. `addDefaultPrecisionG`, argument conversion, `fmt`'s `doPrintf`). If
+the arguments suffice and every conversion with the arguments it consumes is inside the claim (`AllConvOK`: C domain, outside
+F15 / F27 / G09-1, `*` values as in G09-2 / G09-3), the result is exactly C's: the literal texts, `%` for `%%`, and
+`cFormat spec (awkConvert arg)` for each conversion, arguments — including the `*` ones — consumed in order. -/
+theorem sprintf_is_c_composed (dg : DigitGen) (chars : Bool) (segs : List Seg) (args : List Arg)
+    (hok : ∀ s ∈ segs, SegOK s) (hall : AllConvOK dg chars segs args) (hlen : needSegs segs ≤ args.length) :
+    ∃ out, cSegs dg chars segs args = some out ∧ awkSprintf dg chars (renderSegs segs) args = .ok out := by
+  have htl := typesOf_length segs
+  obtain ⟨gargs, hg⟩ := convertArgs_total chars (typesOf segs) args (typesOf_ok segs hok) (by omega)
+  obtain ⟨out, hc, hgo⟩ := go_segs dg chars segs args gargs ((goText2 segs).length + 1) hok hall hg (by omega)
+  refine ⟨out, hc, ?_⟩
+  have hnot : ¬ (args.length < (typesOf segs).length) := by omega
+  simp [awkSprintf, parseFmtTypes_segs segs hok, hnot, hg, goPrintf, hgo]
+
+/-- … and it is the "got n args, expected m" error exactly when the arguments run out (m counts every `*` and every
+conversion), whatever the conversions are -/
+theorem sprintf_composed_too_few (dg : DigitGen) (chars : Bool) (segs : List Seg) (args : List Arg)
+    (hok : ∀ s ∈ segs, SegOK s) :
+    (args.length < needSegs segs ↔ awkSprintf dg chars (renderSegs segs) args = .err (.argCount args.length (needSegs segs))) ∧
+    (args.length < needSegs segs ∨ ∃ gargs, awkSprintf dg chars (renderSegs segs) args = goPrintf dg (goText2 segs) gargs) := by
+  have htl := typesOf_length segs
+  constructor
+  · constructor
+    · intro h
+      simp [awkSprintf, parseFmtTypes_segs segs hok, htl, h]
+    · intro h
+      by_cases hlt : args.length < needSegs segs
+      · exact hlt
+      · exfalso
+        obtain ⟨gargs, hg⟩ := convertArgs_total chars (typesOf segs) args (typesOf_ok segs hok) (by omega)
+        have hnot : ¬ (args.length < (typesOf segs).length) := by omega
+        simp only [awkSprintf, parseFmtTypes_segs segs hok, gt_iff_lt, hnot, if_false, hg] at h
+        -- `doPrintf` never returns an AWK error
+        have hne : ∀ (fuel : Nat) (f : Bytes) (ga : List GoArg) (e : FmtErr), goPrintfAux dg fuel f ga ≠ .err e := by
+          intro fuel
+          induction fuel with
+          | zero => intro f ga e; simp [goPrintfAux]
+          | succ n ih =>
+            intro f ga e
+            have hp : ∀ (r : Res) (pre : Bytes), (∀ e, r ≠ .err e) → r.prepend pre ≠ .err e := by
+              intro r pre hr; cases r <;> simp [Res.prepend]
+              exact fun h => hr _ (by rw [h])
+            cases f with
+            | nil => cases ga <;> simp [goPrintfAux]
+            | cons c rest =>
+              simp only [goPrintfAux]
+              split
+              · exact hp _ _ (fun e => ih _ _ e)
+              · split
+                · simp
+                · split
+                  · simp
+                  · split
+                    · simp
+                    · split
+                      · exact hp _ _ (fun e => ih _ _ e)
+                      · split
+                        · simp
+                        · split
+                          · simp
+                          · split
+                            · simp
+                            · exact hp _ _ (fun e => ih _ _ e)
+        exact hne _ _ _ _ h
+  · by_cases hlt : args.length < needSegs segs
+    · exact Or.inl hlt
+    · right
+      obtain ⟨gargs, hg⟩ := convertArgs_total chars (typesOf segs) args (typesOf_ok segs hok) (by omega)
+      have hnot : ¬ (args.length < (typesOf segs).length) := by omega
+      exact ⟨gargs, by simp [awkSprintf, parseFmtTypes_segs segs hok, hnot, hg]⟩
+
+/-- non-vacuity: `[%5d|%-*s|%%|%.3g]` with arguments 42, 6, "ab", 2.5 -/
+example : (∀ s ∈ [Seg.lit [91], .conv ⟨[], .lit [53], .absent, 100⟩, .lit [124], .conv ⟨[45], .star, .absent, 115⟩, .lit [124], .pct,
+      .conv ⟨[], .absent, .lit [51], 103⟩, .lit [93]], SegOK s) := by
+  intro s hs
+  simp only [List.mem_cons, List.not_mem_nil, or_false] at hs
+  rcases hs with rfl | rfl | rfl | rfl | rfl | rfl | rfl | rfl <;>
+    first
+    | (intro c hc; simp at hc; subst hc; decide)
+    | trivial
+    | exact ⟨wf_of_wellFormed _ (by decide), by decide⟩
+
+example : awkSprintf dg0 false
+    (renderSegs [Seg.lit [91], .conv ⟨[], .lit [53], .absent, 100⟩, .lit [124], .conv ⟨[45], .star, .absent, 115⟩, .lit [124], .pct, .lit [93]])
+    [num 42, num 6, ⟨true, [97, 98], .fin false 0 0⟩] = .ok [91, 32, 32, 32, 52, 50, 124, 97, 98, 32, 32, 32, 32, 124, 37, 93] /- "[   42|ab    |%]" -/ ∧
+  cSegs dg0 false
+    [Seg.lit [91], .conv ⟨[], .lit [53], .absent, 100⟩, .lit [124], .conv ⟨[45], .star, .absent, 115⟩, .lit [124], .pct, .lit [93]]
+    [num 42, num 6, ⟨true, [97, 98], .fin false 0 0⟩] = some [91, 32, 32, 32, 52, 50, 124, 97, 98, 32, 32, 32, 32, 124, 37, 93] := by decide
+
+/-- non-vacuity of `AllConvOK`: `%5d` applied to 42 is inside the claim -/
+example : AllConvOK dg0 false [.conv ⟨[], .lit [53], .absent, 100⟩] [num 42] := by
+  show ∃ rest, ConvOK dg0 false _ _ rest ∧ True
+  refine ⟨[], ⟨some 5, [num 42], none, num 42, .int 42, by decide, by decide, by simp, by simp, ?_, by simp, by decide, by decide, ?_⟩, trivial⟩
+  · intro ds h; simp at h; subst h; decide
+  · simp [ArgOK, IntExcluded, resolveSpec]
+
+/-! ### `#` with the floating conversions: `fmt`'s post-processing against C's rule -/
+
+/-- C's `#` rule ("always a decimal point; for g and G trailing zeros are not removed", so the `#` text of `g` has exactly
+P significant digits) as a relation `SharpShape verb prec plain sharp` between the text without and with `#`: whenever the two
+texts are so related, what `fmt.fmtFloat` rebuilds from the plain text (`goSharpFloat`: count the significant digits, append the
+point and the missing zeros before the exponent) is the `#` text — for every precision, digit string and exponent. -/
+theorem go_sharp_is_c_rule (verb : UInt8) (prec : Nat) (plain sharp : Bytes) (h : SharpShape verb prec plain sharp) :
+    goSharpFloat verb prec plain = sharp := goSharp_of_shape verb prec plain sharp h
+
+/-- hence the assumption `SharpCoherent` of `sprintf_is_c_partial_float` / `AllConvOK` holds for every digit generator that
+follows C's rule -/
+theorem sharp_coherent_of_c_rule (dg : DigitGen) (h : CSharpRule dg) : SharpCoherent dg := sharpCoherent_of_rule dg h
+
+/-- not proved (checked by correspondence and against libc only): the exact digit generator of the driver follows C's rule -/
+def ExactGenFollowsCRule : Prop := CSharpRule exactGen
+
+/-- `%#g` of 1e6: plain `1e+06`, with `#` `1.00000e+06`; `%#.0e` of 3: `3e+00` / `3.e+00`; `%#g` of 0: `0` / `0.00000` -/
+example : SharpShape 103 6 [49, 101, 43, 48, 54] [49, 46, 48, 48, 48, 48, 48, 101, 43, 48, 54] :=
+  Or.inr (Or.inl ⟨by decide, [49], [], 5, [101, 43, 48, 54], (by intro c hc; simp at hc; subst hc; decide), (by intro c hc; simp at hc), Or.inr ⟨101, [43, 48, 54], rfl, Or.inl rfl⟩,
+    by decide, by decide, by decide, by decide⟩)
+example : goSharpFloat 101 0 [51, 101, 43, 48, 48] = [51, 46, 101, 43, 48, 48] ∧ goSharpFloat 103 6 [48] = [48, 46, 48, 48, 48, 48, 48] := by decide
 
 end GoawkModel.C09.Props
